@@ -12,9 +12,9 @@ RULE = ("Wishbone widths {8,16,32,64} on native ports of equal, smaller (2x,4x d
         "region; native side with random acceptance, pulse latencies and long stalls; Native2Wishbone with random slave latencies; "
         "a case = one simulated cycle with all boundary signals compared (equal/up/N2W) or one acknowledged access judged by the "
         "specification; non-trivial = an acknowledge or port handshake happens; distinct by (run, cycle)")
-TRUSTED = ["native-side stub written from core/crossbar.py, not the real controller",
+TRUSTED = ["native-side stub written from core/crossbar.py, not the real controller (two kinds: write data requested after the command as the crossbar does, and a buffered port - FIFO / CDC in front of the controller - that takes write data whenever it has room and pairs it with the commands in order)",
            "for a wider Wishbone bus the down-converter is covered cycle-exactly by C07; here the composition is judged by the specification only"]
-ASSUMPTIONS = ["Wishbone master holds CYC/STB/ADR/WE/SEL/DAT_W until ACK unless it aborts; an aborted write may or may not take effect (only issued to a scratch region that is never read back)",
+ASSUMPTIONS = ["wider Wishbone bus (down-conversion): the native port requests write data once per accepted command (the contract the bridge states in its source); equal / narrower bus: also a buffered native port that takes write data whenever it has room", "Wishbone master holds CYC/STB/ADR/WE/SEL/DAT_W until ACK unless it aborts; an aborted write may or may not take effect (only issued to a scratch region that is never read back)",
                "BTE = linear; ERR/RTY unused"]
 
 
@@ -37,7 +37,11 @@ def rand_cfg(rnd, idx):
     adr_bits = wb_aw + rnd.randint(0, 3)
     base_words = rnd.choice([0, 0, rnd.randrange(0, 1 << adr_bits)])
     return dict(shape=shape, wb_dw=wb_dw, port_dw=port_dw, ratio=ratio, log=log, port_aw=port_aw, wb_aw=wb_aw, adr_bits=adr_bits,
-                base_words=base_words, aborts=int(idx % 2 == 0))
+                base_words=base_words, aborts=int(idx % 2 == 0),
+                # a buffered native port only where the bridge gates its write data by its FSM (equal / narrower bus); with a wider
+                # bus the bridge offers the data together with the command (the down-converter needs it no later) and states that
+                # "the controller asks for it only once": a port that takes data independently of commands is outside that contract
+                buffered=0 if shape == "down" else [0, 0, 1, 0, 2, 4][(idx // 6) % 6])
 
 
 def gen_ops(c, rnd, n):
@@ -117,6 +121,8 @@ def simulate(c, groups, rnd):
     def gen():
         gi = 0; ai = 0; gap = 2; active = False; waited = 0; cyc_hold = False
         queue = []; last_event = 0
+        buf = c.get("buffered", 0)          # native port behind a FIFO / CDC: write data is taken whenever there is room,
+        cmdq = []; dataq = []                # independently of the command channel, and paired with the commands in order
         p_cmd, lat = 0.8, 3
         prev = None; pending_w = None; pending_r = False
         tail = 0
@@ -155,7 +161,13 @@ def simulate(c, groups, rnd):
                         active = False; waited = 0; cyc_hold = False
                         gi += 1; ai = 0; gap = rnd.randint(1, 4); cooldown = rnd.choice([0, 0, 30])
                 mon.append(ev)
-                if o_cv and prev["tcr"]:
+                if buf:
+                    if o_cv and prev["tcr"]:
+                        cmdq.append([o_cw, o_ca, t + 1 + rnd.randint(0, lat)])
+                        st["max_outstanding"] = max(st["max_outstanding"], len(cmdq))
+                    if o_wv and prev["twr"]:
+                        dataq.append((o_wd, o_ww))
+                elif o_cv and prev["tcr"]:
                     e = max(t + 1, last_event + 1) + rnd.randint(0, lat)
                     if rnd.random() < 0.05:
                         e += rnd.randint(10, 40)
@@ -177,7 +189,7 @@ def simulate(c, groups, rnd):
                         st["lost"].append("rdata.valid pulsed while rdata.ready was low (cycle %d)" % t)
                     pending_r = False
             if gi >= len(groups):
-                busy = prev is not None and (o_cv or o_wv or queue or pending_w is not None or pending_r)
+                busy = prev is not None and (o_cv or (o_wv and not buf) or queue or cmdq or pending_w is not None or pending_r)
                 tail = 0 if busy else tail + 1
                 if tail > 100:
                     break
@@ -197,21 +209,37 @@ def simulate(c, groups, rnd):
                     cyc = 1                      # CYC stays high between the beats of a burst, STB low
             if not stb and rnd.random() < 0.5:
                 we, adr, sel, dat, cti = rnd.randint(0, 1), rnd.randrange(amask + 1), rnd.getrandbits(nb), rnd.getrandbits(c["wb_dw"]), rnd.choice([0, 2, 7])
-            tcr = int(rnd.random() < p_cmd)
+            tcr = int(rnd.random() < p_cmd) if t >= c.get("tcr_hold", 0) else 0
             twr = trv = trd = 0
-            if queue and queue[0][0] <= t:
+            if buf:
+                twr = int(len(dataq) < buf and rnd.random() < 0.8)
+                if cmdq and cmdq[0][2] <= t:
+                    if cmdq[0][0]:
+                        if dataq:
+                            d, m = dataq.pop(0); qa = cmdq.pop(0)[1]
+                            old = st["stub_mem"].get(qa, 0); new = 0
+                            for b in range(c["port_dw"] // 8):
+                                src = d if (m >> b) & 1 else old
+                                new |= ((src >> (8 * b)) & 0xff) << (8 * b)
+                            st["stub_mem"][qa] = new
+                    else:
+                        qa = cmdq.pop(0)[1]
+                        trv = 1; trd = st["stub_mem"].get(qa, 0); pending_r = True
+            elif queue and queue[0][0] <= t:
                 _, qwe, qa = queue.pop(0)
                 if qwe:
                     twr = 1; pending_w = qa
                 else:
                     trv = 1; trd = st["stub_mem"].get(qa, 0); pending_r = True
-            prev = dict(cyc=cyc, stb=stb, tcr=tcr)
+            prev = dict(cyc=cyc, stb=stb, tcr=tcr, twr=twr)
             yield wb.cyc.eq(cyc); yield wb.stb.eq(stb); yield wb.we.eq(we); yield wb.adr.eq(adr); yield wb.sel.eq(sel); yield wb.dat_w.eq(dat); yield wb.cti.eq(cti)
             yield port.cmd.ready.eq(tcr); yield port.wdata.ready.eq(twr); yield port.rdata.valid.eq(trv); yield port.rdata.data.eq(trd)
             lines.append("%d %d %d %d %d %d %d %d %d %d %d" % (cyc, stb, we, adr, sel, dat, cti, tcr, twr, trv, trd))
             yield
         else:
-            st["stuck"] = "after %d cycles: group %d of %d, %d acknowledges, %d aborts, %d native commands outstanding" % (budget, gi, len(groups), st["acks"], st["aborts"], len(queue))
+            st["stuck"] = "after %d cycles: group %d of %d, %d acknowledges, %d aborts, %d native commands outstanding" % (budget, gi, len(groups), st["acks"], st["aborts"], len(queue) + len(cmdq))
+        if buf and dataq and not st["stuck"]:
+            st["lost"].append("%d write-data beats were handed to the native port without a write command to go with them" % len(dataq))
     run_simulation(dut, gen())
     st["view"] = {a: view_word(a) for a in range(1 << c["wb_aw"])}
     return lines, obs, mon, st
@@ -266,7 +294,8 @@ def job(args):
                 what = "Wishbone word %d: native memory holds 0x%x, the acknowledged writes give 0x%x" % (a, st["view"].get(a, 0), spec_mem[a])
     r.evaluations += 1
     if what:
-        r.violations.append(dict(signature="c10-" + ("abort" if st["aborts"] else "wishbone"),
+        sig = "c10-" + ("abort" if st["aborts"] else "wishbone")
+        r.violations.append(dict(signature=sig,
                                  what="Wishbone %d-bit on %d-bit native port (%s), %d aborted cycles: %s" % (c["wb_dw"], c["port_dw"], c["shape"], st["aborts"], what), replay=tag))
     if idx < 2:
         r.samples.append(dict(config=c, first_group=groups[0][:3], first_cycles=obs[:3]))
